@@ -93,11 +93,13 @@ type Peer struct {
 	ExpectPreface bool
 	PrefaceOK     bool
 	// DecoderTableSize is the SETTINGS_HEADER_TABLE_SIZE this peer advertises (for decoding what it receives).
-	done chan struct{}
+	done     chan struct{}
+	stopRead bool
+	never    chan struct{}
 }
 
 func NewPeer(c net.Conn) *Peer {
-	return &Peer{C: c, Enc: hpackref.NewEnc(4096), dec: hpack.NewDecoder(4096, nil), done: make(chan struct{})}
+	return &Peer{C: c, Enc: hpackref.NewEnc(4096), dec: hpack.NewDecoder(4096, nil), done: make(chan struct{}), never: make(chan struct{})}
 }
 
 // SetDecoderAllowed tells the peer's HPACK decoder which table size it has advertised.
@@ -105,6 +107,13 @@ func (p *Peer) SetDecoderAllowed(n uint32) { p.dec.SetAllowedMaxDynamicTableSize
 
 // StartReader launches the reader goroutine.
 func (p *Peer) StartReader() { go p.readLoop() }
+
+// StopReading makes the reader goroutine park for ever after the frame it is reading: the peer "stops reading".
+func (p *Peer) StopReading() {
+	p.mu.Lock()
+	p.stopRead = true
+	p.mu.Unlock()
+}
 
 func (p *Peer) readLoop() {
 	defer close(p.done)
@@ -134,6 +143,10 @@ func (p *Peer) readLoop() {
 		}
 		f := p.convert(xf)
 		p.mu.Lock()
+		if p.stopRead {
+			p.mu.Unlock()
+			<-p.never // parked: nothing drains the connection any more
+		}
 		f.Seq = len(p.frames)
 		p.frames = append(p.frames, f)
 		cb := p.OnFrame
